@@ -22,7 +22,7 @@ ASSUMPTIONS = ['feeds are made large enough that neither side is infeasible (X_a
 
 
 def required(tier):
-    return ['add-vs-parallel', 'sub-inverse', 'scale', 'inplace', 'new-object', 'operands-unchanged', 'set-item-X', 'backwards', 'set-copy', 'reduce', 'sum-of-three', 'basis-setter', 'set+set', 'set-item-inplace',
+    return ['add-vs-parallel', 'sub-inverse', 'scale', 'inplace', 'new-object', 'operands-unchanged', 'set-item-X', 'backwards', 'set-copy', 'reduce', 'sum-of-three', 'basis-setter', 'set+set', 'set-item-inplace', 'negated-operand',
             'X:sum-to-one', 'X:equal', 'X:full-scaled', 'sub-inverse:null-a', 'isub-direct', 'backwards:X', 'system-X', 'feed:sparse', 'feed:sv', 'feed:nd', 'feed:sa', 'basis-setter:set-refused']
 
 
@@ -347,6 +347,21 @@ def run_case(case, rec):
     for nm, fn in (('add-zero', lambda: a + 0), ('radd-zero', lambda: 0 + a), ('sub-zero', lambda: a - 0)):
         sa6 = snap(a); r0 = guarded('new-object', fn)
         if r0 is not None: fresh(nm, r0, (a,)); unchanged(nm, (a,), (sa6,)); rec.check(same_snap(snap(r0), sa6), 'new-object', f'{nm}/value/{tg}', f'{nm} is not a copy of a')
+    # negated operands: a - (-b) acts like a + b, a + (-b) like a - b (binary and in-place forms)
+    if a.X > 0 and bb.X > 0:
+        nb = guarded('negated-operand', lambda: -bb)
+        if nb is not None:
+            rec.hit('negated-operand')
+            for nm, fn, ref_fn, need in (('a-(-b)', lambda: a - nb, lambda: a + bb, True), ('a+(-b)', lambda: a + nb, lambda: a - bb, a.X > bb.X),
+                                         ('a-=(-b)', lambda: a.copy().__isub__(nb), lambda: a + bb, True), ('a+=(-b)', lambda: a.copy().__iadd__(nb), lambda: a - bb, a.X > bb.X)):
+                if not need: continue
+                r1 = guarded('negated-operand', fn); r2 = guarded('negated-operand', ref_fn)
+                if r1 is None or r2 is None: continue
+                rec.check(abs(r1.X - r2.X) <= 1e-12 * max(abs(r2.X), 1e-300), 'negated-operand', f'{nm}/X/{tg}', f'{nm} has X={r1.X!r} but the equivalent form has X={r2.X!r} (a.X={a.X}, b.X={bb.X})')
+                lhs = guarded('negated-operand', lambda: apply(r1, case, th)); rhs = guarded('negated-operand', lambda: apply(r2, case, th))
+                if lhs is not None and rhs is not None:
+                    d = differ(lhs, rhs, scale)
+                    rec.check(not d, 'negated-operand', f'{nm}/acts/{tg}', f'{nm} acts differently from the equivalent form: {d[:4]}')
     # basis setter on a copy: the original stays, the re-based reaction acts the same
     other = 'wt' if a._basis == 'mol' else 'mol'
     rb = a.copy(); sa7 = snap(a)
